@@ -201,6 +201,19 @@ fn value_case(a: &Args, l: u32, ctx: &mut Ctx) -> Result<(), String> {
         if r != r0 {
             return Err(format!("overwriting the value of length {l} by one of length {nl} changed the raw slot bytes of a neighbouring entry"));
         }
+        // a shorter value may now sit in the bigger slot: fill that slot to the brim and just beyond (the width of
+        // the length field can differ from the one the shorter value had)
+        if nl < l {
+            for third in [brim as u32, brim as u32 + 1, brim as u32 + 2] {
+                t.put(&kx, &crate::util::gen_bytes(third as usize, third ^ 0x99, 0))?;
+                let r = t.check(&[&ka, &kb], ctx).map_err(|e| format!("after overwriting it by length {nl} and then by length {third}: {e}"))?;
+                if r != r0 {
+                    return Err(format!("overwriting the value of length {l} by {nl} and then by {third} changed the raw slot bytes of a neighbouring entry"));
+                }
+                t.put(&kx, &crate::util::gen_bytes(nl as usize, nl ^ 0x55, 0))?;
+                ctx.count("overwrites_checked", 2);
+            }
+        }
         // and back to the original length
         t.put(&kx, &crate::util::gen_bytes(l as usize, l, 0))?;
         let r = t.check(&[&ka, &kb], ctx).map_err(|e| format!("after overwriting it by length {nl} and again by length {l}: {e}"))?;
@@ -284,7 +297,7 @@ pub fn run(a: &Args) -> Ctx {
         vals.extend(ed.val_small.iter().copied());
         vals.extend(ed.val_mid.iter().copied().filter(|&x| x <= 4200));
     }
-    for c in [4096u32, 8192, 131072, 1 << 20] {
+    for c in [4096u32, 8192, 16384, 131072, 1 << 20, 1 << 21] {
         for d in 0..=6u32 {
             vals.push(c + d - 3);
         }
